@@ -24,6 +24,22 @@ def make_dataset(rng, **o):
         raw_dtype=o.get('raw_dtype', rng.choice(['int16', 'int16', 'float32', 'int32'])))
     if names == 'alf':
         sem['rate'] = rng.choice([128.0, 1024.0])
+    layout = o.get('layout')
+    if layout == 'unused':
+        # a template without spikes (legal: templates.npy keeps its row): with max_n_spikes_per_template = 1 and all
+        # the spikes on ONE template the subset store holds exactly one spike
+        keep = rng.randrange(sem['n_templates'])
+        sem['spike_templates'] = [keep] * sem['n_spikes']
+    elif layout is not None and layout[0] == 'parts':
+        # 22 raw files of 4 rows = 22 chunks > n_chunks_kept = 20: the selector keeps every second chunk (0, 2, ...);
+        # layout[1] of the spikes lie in kept chunks, the others in skipped ones; every template is used
+        nk, nspk, nt = layout[1], sem['n_spikes'], sem['n_templates']
+        chunks = sorted(rng.sample(range(0, 22, 2), nk) + rng.sample(range(1, 22, 2), nspk - nk))
+        sem['spike_samples'] = sorted(4 * c + rng.randrange(4) for c in chunks)
+        st = [k % nt for k in range(nspk)]
+        rng.shuffle(st)
+        sem['spike_templates'] = st
+        sem['raw']['sizes'] = [4] * 22
     ds = D.render(sem, rng, names=names, label=o.get('label', rng.choice(['', 'probe00'])),
                   write_clusters=o.get('write_clusters', rng.random() < 0.5),
                   id_dtype=o.get('id_dtype', rng.choice(['uint32', 'int32', 'int64'])),
@@ -126,7 +142,7 @@ def rand_table(rng, fields, n_ids=6, ragged=False, with_cid=True):
     return table_text(delim, header, rows)
 
 
-MALFORMED_KINDS = ['empty', 'header_only', 'ragged', 'binary', 'no_cid', 'dir', 'blank_line', 'garbage']
+MALFORMED_KINDS = ['empty', 'header_only', 'ragged', 'binary', 'no_cid', 'dir', 'blank_line', 'garbage', 'symlink']
 
 
 def malformed(rng, kind, fields):
@@ -143,6 +159,8 @@ def malformed(rng, kind, fields):
         return {'kind': 'text', 'text': rand_table(rng, fields, with_cid=False)}
     if kind == 'dir':
         return {'kind': 'dir'}
+    if kind == 'symlink':       # a dangling symbolic link: glob lists it, read_tsv finds that it does not exist
+        return {'kind': 'symlink'}
     if kind == 'blank_line':
         return {'kind': 'text', 'text': '\n' + rand_table(rng, fields)}
     if kind == 'garbage':
@@ -169,6 +187,8 @@ def parse_file(spec):
     ('table', header, rows of classified cells) or ('raise',)."""
     if spec['kind'] in ('binary', 'dir'):
         return ('raise',)
+    if spec['kind'] == 'symlink':           # read_tsv: `if not path.exists(): return []` -- a table without rows
+        return ('table', [], [])
     text = spec['text']
     first = text.split('\n', 1)[0]
     delim = '\t' if '\t' in first else ','
@@ -182,9 +202,15 @@ def write_foreign(dirpath, name, spec):
     import os
     import shutil
     p = os.path.join(dirpath, name)
+    if os.path.islink(p):
+        os.remove(p)
     if os.path.isdir(p):
         shutil.rmtree(p)
-    if spec['kind'] == 'dir':
+    if spec['kind'] == 'symlink':
+        if os.path.exists(p):
+            os.remove(p)
+        os.symlink(os.path.join(dirpath, 'no_such_target'), p)
+    elif spec['kind'] == 'dir':
         if os.path.exists(p):
             os.remove(p)
         os.makedirs(p)
@@ -194,3 +220,22 @@ def write_foreign(dirpath, name, spec):
     else:
         with open(p, 'w', newline='') as f:
             f.write(spec['text'])
+
+
+# ---- a subset store left behind in a state np.load rejects -------------------------------------------------------
+
+def write_broken_store(dirpath, kind, nsw):
+    """The three _phy_spikes_subset files as an interrupted extraction / a damaged copy leaves them: spike ids and
+    channel table are sound, the waveform file is 'truncated' (header of a (2, nsw, 12) float64 array followed by
+    half of its payload: np.load(mmap_mode='r') raises ValueError) or 'garbage' (no npy header at all)."""
+    import io
+    import os
+    import numpy as np
+    np.save(os.path.join(dirpath, '_phy_spikes_subset.spikes.npy'), np.array([0, 1], dtype=np.int64))
+    np.save(os.path.join(dirpath, '_phy_spikes_subset.channels.npy'), np.tile(np.arange(12, dtype=np.int32) % 2, (2, 1)))
+    buf = io.BytesIO()
+    np.save(buf, np.zeros((2, nsw, 12), dtype=np.float64))
+    data = buf.getvalue()
+    payload = 2 * nsw * 12 * 8
+    with open(os.path.join(dirpath, '_phy_spikes_subset.waveforms.npy'), 'wb') as f:
+        f.write(data[:len(data) - payload // 2] if kind == 'truncated' else b'this is not an npy file\n' * 3)
